@@ -894,7 +894,7 @@ fn c19_case(c: &CycleCase) -> CaseResult {
 
 pub fn c19(ctx: &mut Ctx) {
     ctx.rule = "long histories (hundreds to thousands of queries) of insert/remove cycles over many distinct hashed keys: aliases (insert, remove, re-alias, new nodes with aliases, node removal) and values of an indexed key (insert, replace, remove), with the number of distinct keys swept over 1..300 so that the tombstone count passes the 64-slot minimum capacity and every rehash threshold, interleaved with lookups. Oracle: work budget, not wall clock - the database runs on a public StorageData wrapper that counts storage calls; every query gets 10^6 calls (the largest legitimate query of these histories needs < 10^4, reported in the labels) and a query that exhausts the budget is reported as non-terminating. evaluations = queries executed. Non-trivial: >=64 distinct keys were inserted and removed from one hashed collection. Distinct = hash of the case.".into();
-    let cases = ctx.tier.pick(6000, 40_000);
+    let cases = ctx.tier.pick(20_000, 60_000);
     let max_ops = ctx.tier.pick(120usize, 300usize);
     let mk = move || {
         let op = prop_oneof![
